@@ -41,3 +41,42 @@ def negative_length_bounds(f: FuncInfo) -> List[dict]:
                         guarded = True
                 out.append(dict(node=n, bound=u(bound), ok=guarded))
     return out
+
+
+def possibly_negative_stops(f: FuncInfo) -> List[dict]:
+    """`x[: A - B]` where A is a data-derived size and B derives from an integer *option* of the function (or a loop counter
+    bounded by it): once B exceeds A the stop is negative and Python reads it as 'all but the last B - A', not as empty."""
+    out = []
+    rd = ReachingDefs(f.node)
+    pm = parent_map(f.node)
+    params = {p.name for p in f.params}
+    for n in own_nodes(f.node):
+        if not isinstance(n, ast.Subscript):
+            continue
+        items = n.slice.elts if isinstance(n.slice, ast.Tuple) else [n.slice]
+        for it in items:
+            if not (isinstance(it, ast.Slice) and isinstance(it.upper, ast.BinOp) and isinstance(it.upper.op, ast.Sub)):
+                continue
+            a, b = it.upper.left, it.upper.right
+            da, db = rd.derives(a), rd.derives(b)
+            a_is_size = any(isinstance(c.func, ast.Attribute) and c.func.attr in ("size", "numel") or call_name(c) == "len" for c in da.calls()) \
+                or any(isinstance(x, ast.Attribute) and x.attr == "shape" for e in da.exprs for x in ast.walk(e))
+            b_from_option = bool(db.params() & params) or any(d.kind == "for" and any(
+                isinstance(x, ast.Name) and x.id in params for x in ast.walk(d.value) if d.value is not None) for d in db.defs)
+            b_is_length = any(call_name(c) == "len" for c in db.calls()) or any(isinstance(x, ast.Call) and call_name(x) == "len" for x in ast.walk(b))
+            if not (a_is_size and b_from_option) or b_is_length:
+                continue  # (the length of a matched affix never exceeds the name it was matched in: rule G4)
+            names = {x.id for x in ast.walk(it.upper) if isinstance(x, ast.Name)}
+            guarded = False
+            for t, pol in guards_of(pm, n):
+                tn = {x.id for x in ast.walk(t) if isinstance(x, ast.Name)}
+                if names <= tn and any(isinstance(c, ast.Compare) for c in ast.walk(t)):
+                    guarded = True
+            # B clamped by A: every definition of B (or of the loop range it counts) is `min(..., A)`
+            an = {x.id for x in ast.walk(a) if isinstance(x, ast.Name)}
+            bdefs = [d for nm in ast.walk(b) if isinstance(nm, ast.Name) for d in rd.defs_of(nm) if d.kind != "param"]
+            clamped = bool(bdefs) and all(d.value is not None and any(
+                isinstance(c, ast.Call) and call_name(c) == "min" and an & {x.id for x in ast.walk(c) if isinstance(x, ast.Name)}
+                for c in ast.walk(d.value)) for d in bdefs)
+            out.append(dict(node=n, bound=u(it.upper), ok=guarded or clamped))
+    return out
